@@ -68,6 +68,19 @@ theorem outputs_exact (P : List Obj) (π : List Nat → List Nat) (fixed : Bool)
   rw [hm]
   exact ⟨rfl, rfl⟩
 
+/-- `outputs_exact` does not need the output dictionary to be injective: `req.outputs` is a *list* of
+    (name, Var) entries and every entry gets its own graph output. Non-vacuity on a request where
+    one intermediate Var is requested under two names and an argument is both an input and (under
+    another name) an output: all three requested names appear, in order, each bound to its Var. -/
+def outputsOf (r : Except Err Model) : Option (List VInfo × List Nat) :=
+  match r with | .ok m => some (m.outputs, m.outVars) | .error _ => none
+
+example :
+    outputsOf (build ir
+        [⟨true, false, "1:[]", [1, 0], []⟩, ⟨true, true, "1:[]", [], []⟩, ⟨true, true, "7:[]", [], []⟩]
+        id true ⟨[⟨"a", 0⟩, ⟨"b", 1⟩], [⟨"score", 2⟩, ⟨"legacy_score", 2⟩, ⟨"a_copy", 0⟩], false⟩ (fun _ => none)).2
+      = some ([⟨"score", "1:[]"⟩, ⟨"legacy_score", "1:[]"⟩, ⟨"a_copy", "7:[]"⟩], [2, 2, 0]) := by decide
+
 /-- `drop_unused_inputs=True`: the graph inputs are exactly the entries on which some output
     depends, **in their given relative order**, for every set-iteration order `π`. -/
 theorem inputs_dropped (P : List Obj) (π : List Nat → List Nat) (hπ : ∀ l, (π l).Perm l)
